@@ -23,8 +23,9 @@ Correspondence streams (each for EVERY class of the generated table):
                clock movements interleaved; direct: one TaskManager step per
                `tick` (the real get_next_task / process_task under harness.vt);
                wire: real core.run in virtual time (`vt.advance`)
-  e2e          two complete stacks on a VLAN: client WriteProperty/ReadProperty
-               confirmed requests against a server holding the object
+  rand-e2e,    two complete stacks (Application/ASAP/SMAP/NSAP/Node) on a VLAN: the
+  minonoff-e2e client sends confirmed WriteProperty/ReadProperty requests to the server
+               holding the object, the real core.run moves the frames in virtual time
 
 Implementation-side oracle (no model involved), after every command:
   * presentValue == value of the lowest-numbered non-null slot as READ from
@@ -46,7 +47,9 @@ LEANCHECKER = ["BacVerif.Props.C17"]
 LEVEL = "proof"
 RULE = ("per commandable class: all presentValue command sequences up to length 4 (quick) / 5 (thorough) over "
         "4 priorities (None, 16 and two seed-chosen ones) x 3 values (2 for BinaryPV) x {write, relinquish}, "
-        "directly; up to length 3 / 4 as WriteProperty/ReadProperty APDUs; random length-100 histories over "
+        "directly; up to length 3 / 4 as WriteProperty/ReadProperty APDUs (quick tier: full depth for one class of "
+        "each (datatype, mix-in) group — APDU depth for every second group, alternating with the seed — one "
+        "command less for the sibling classes; thorough: full depth for all 20); random length-100 histories over "
         "None + 1..16 with refused commands mixed in, both ways; min on/off times 0..10 s with clock movements. "
         "distinct = distinct (stream kind, class family, tuple of model branch classes of the last <=3 steps) "
         "signatures; trivial = the empty sequence")
@@ -421,8 +424,10 @@ class Wire(Direct):
         if isinstance(r, (SimpleAckPDU, ComplexAckPDU)):
             return None
         if isinstance(r, ErrorPDU):
-            e = Error()
-            e.decode(r)
+            e = r
+            if not isinstance(r, Error):
+                e = Error()
+                e.decode(r)
             return "exec:%s:%s" % (e.errorClass, e.errorCode)
         if isinstance(r, RejectPDU):
             # a value of the wrong type is turned down with Reject invalid-parameter-datatype (3)
@@ -468,14 +473,12 @@ class Wire(Direct):
         if err or not isinstance(r, ComplexAckPDU):
             pv = "unreadable:%s" % (err or self._outcome(r))
         else:
-            ack = ReadPropertyACK()
-            ack.decode(r)
+            ack = self._ack(r)
             pv = code_of(ci, ack.propertyValue.cast_out(ci["dt"]))
         err, r = self._roundtrip(ReadPropertyRequest(objectIdentifier=self.oid, propertyIdentifier="priorityArray"))
         if err or not isinstance(r, ComplexAckPDU):
             return pv, ["unreadable:%s" % (err or self._outcome(r))] * 16
-        ack = ReadPropertyACK()
-        ack.decode(r)
+        ack = self._ack(r)
         # decode as a plain array of PriorityValue: PriorityArray() would first
         # deep-copy its prototype sixteen times (4 ms); the length is checked below
         arr = ack.propertyValue.cast_out(ArrayOf(PriorityValue))
@@ -485,8 +488,108 @@ class Wire(Direct):
         return pv, [slot_code(ci, x, choice) for x in vals]
 
 
+    @staticmethod
+    def _ack(r):
+        from bacpypes.apdu import ReadPropertyACK
+        if isinstance(r, ReadPropertyACK):
+            return r
+        ack = ReadPropertyACK()
+        ack.decode(r)
+        return ack
+
+
+_E2E = None
+
+
+def e2e_stack():
+    """two complete stacks (Application / ASAP / SMAP / NSAP+NSE / vlan.Node) on one
+    VLAN, wired as the repository's tests wire them; built once per process"""
+    global _E2E
+    if _E2E is not None:
+        return _E2E
+    from bacpypes.comm import bind
+    from bacpypes.pdu import Address, LocalBroadcast
+    from bacpypes.vlan import Network, Node
+    from bacpypes.app import Application
+    from bacpypes.appservice import StateMachineAccessPoint, ApplicationServiceAccessPoint
+    from bacpypes.netservice import NetworkServiceAccessPoint, NetworkServiceElement
+    from bacpypes.service.object import ReadWritePropertyServices
+    from bacpypes.local.device import LocalDeviceObject
+
+    class NSE(NetworkServiceElement):
+        _startup_disabled = True
+
+    class App(Application, ReadWritePropertyServices):
+        def __init__(self, *a, **kw):
+            Application.__init__(self, *a, **kw)
+            self.confirmations = []
+
+        def confirmation(self, apdu):
+            self.confirmations.append(apdu)
+
+    lan = Network(broadcast_address=LocalBroadcast())
+
+    def stack(devid):
+        dev = LocalDeviceObject(objectName="dev%d" % devid, objectIdentifier=("device", devid),
+                                maxApduLengthAccepted=1024, segmentationSupported="noSegmentation",
+                                vendorIdentifier=999)
+        app = App(dev)
+        asap = ApplicationServiceAccessPoint()
+        smap = StateMachineAccessPoint(dev)
+        smap.deviceInfoCache = app.deviceInfoCache
+        nsap = NetworkServiceAccessPoint()
+        nse = NSE()
+        bind(nse, nsap)
+        bind(app, asap, smap, nsap)
+        node = Node(Address(devid), lan)
+        nsap.bind(node)
+        return app
+    _E2E = (stack(10), stack(20))
+    return _E2E
+
+
+class E2E(Wire):
+    """the object in a complete server stack; a complete client stack on the same
+    VLAN sends confirmed WriteProperty / ReadProperty requests; the real core.run
+    moves the frames (virtual time does not advance while it does)"""
+    kind = "e2e"
+
+    def __init__(self, cname, cfg, fast=False):
+        Direct.__init__(self, cname, cfg, fast)
+        self.client, self.app = e2e_stack()
+        for o in [o for o in self.app.iter_objects() if o is not self.app.localDevice]:
+            self.app.delete_object(o)
+        self.app.add_object(self.obj)
+        self.oid = (self.ci["cls"].objectType, 1)
+
+    def _roundtrip(self, req):
+        from bacpypes.pdu import Address
+        req.pduDestination = Address(20)
+        del self.client.confirmations[:]
+        try:
+            self.client.request(req)
+        except Exception as e:
+            return ("client:" + type(e).__name__, None)
+        if not self.vt.run(until=self.vt.now):
+            return ("overrun", None)
+        if self.vt.errors:
+            k = "python:" + self.vt.errors[0][0]
+            self.vt.errors = []
+            return (k, None)
+        if len(self.client.confirmations) != 1:
+            return ("confirmations:%d" % len(self.client.confirmations), None)
+        return (None, self.client.confirmations[0])
+
+    def deadline(self):
+        """only the object's own task counts (the stacks own tasks of their own)"""
+        t = getattr(self.obj, "_min_on_off_task", None)
+        if t is None or not t.isScheduled:
+            return None
+        return int(round((t.taskTime - BASE) * 1e6))
+
+
 def make_target(kind, cname, cfg, fast=False):
-    return (Wire if kind == "wire" else Direct)(cname, cfg, fast)
+    return {"wire": Wire, "e2e": E2E, "direct": Direct}[kind](cname, cfg, fast)
 
 
 # ---------------------------------------------------------------- the oracle (property on the real object)
@@ -524,6 +627,7 @@ class Oracle:
     def after(self, ev, err, pv, slots, now_us):
         """ev = ("w", prop, code, ai, pr) | ("t", t_us)"""
         ppv, pslots = self.prev
+        cmd_idx = None
         if ev[0] == "w":
             _, prop, code, ai, pr = ev
             # which slot does the property statement say is addressed?
@@ -553,6 +657,7 @@ class Oracle:
                     self.fail("good-command-refused", "command at priority %r raised %s" % (idx, err), idx=idx)
                 else:
                     self.last[idx] = code
+                    cmd_idx = idx
                     if idx <= 6 and self.hold is not None:
                         self.hold = None     # a command at priority <= 6 may legitimately end a hold
         # -- every slot well formed, and equal to the last command at its priority
@@ -570,37 +675,45 @@ class Oracle:
                       % (pv, win, slots))
         # -- minimum on/off
         if self.timed:
-            self.check_hold(ev, pv, slots, ppv, now_us)
+            self.check_hold(ev, cmd_idx, pv, slots, ppv, pslots, now_us)
         self.prev = (pv, slots)
 
-    def check_hold(self, ev, pv, slots, ppv, now_us):
-        s6 = slots[5]
+    def check_hold(self, ev, cmd_idx, pv, slots, ppv, pslots, now_us):
+        """min on/off, on observations only.  A hold = (state v, taken at t0, until)."""
+        s6, ps6 = slots[5], pslots[5]
+        tm = dict(on=self.cfg.get("on"), off=self.cfg.get("off"))
+        # when did a change of the present value seen at this event happen?
+        t_change = now_us if ev[0] in ("w", "t") else None
         if self.hold is not None:
             v, t0, until = self.hold
             if now_us < until:
-                if pv != ppv:
-                    pass                      # a new state: handled below as a new hold
-                elif s6 != v or pv != v:
+                if pv != v or s6 != v:
                     self.fail("hold-broken", "state %r taken at %d us must be held in slot 6 until %d us; at %d us "
-                              "slot 6 = %r, present value = %r" % (v, t0, until, now_us, s6, pv),
-                              on=self.cfg.get("on"), off=self.cfg.get("off"))
+                              "slot 6 = %r, present value = %r" % (v, t0, until, now_us, s6, pv), **tm)
                     self.hold = None
-            else:
-                # the time is over: the slot must have been released (or re-taken for a new state)
-                if pv == ppv and s6 is not None and self.last.get(6) is None:
-                    self.fail("hold-not-released", "slot 6 still holds %r at %d us, hold ended %d us"
-                              % (s6, now_us, until), on=self.cfg.get("on"), off=self.cfg.get("off"))
-                self.hold = None
+                return
+            # the time is over at this observation
+            self.hold = None
+            if ev[0] == "a":
+                t_change = until          # the real scheduler released the slot at the deadline
+            if pv == ppv and s6 is not None and self.last.get(6) is None:
+                self.fail("hold-not-released", "slot 6 still holds %r at %d us, the hold ended at %d us"
+                          % (s6, now_us, until), **tm)
+                return
         if pv != ppv:
-            h = self.hold_time(pv)
+            if t_change is None:
+                return                    # changed at an unknown instant inside an advance
+            h = self.hold_time(pv) * 1000000
             if h > 0:
-                # the change happened at the time of this event (a tick fires at <= now)
-                self.hold = (pv, now_us, now_us + h * 1000000) if ev[0] == "w" else None
-                if s6 != pv:
-                    self.fail("hold-not-taken", "present value became %r at %d us but slot 6 = %r"
-                              % (pv, now_us, s6), on=self.cfg.get("on"), off=self.cfg.get("off"))
-            else:
-                self.hold = None
+                if now_us < t_change + h:
+                    if s6 != pv:
+                        self.fail("hold-not-taken", "present value became %r at %d us (minimum time %d us) but "
+                                  "slot 6 = %r at %d us" % (pv, t_change, h, s6, now_us), **tm)
+                    else:
+                        self.hold = (pv, t_change, t_change + h)
+            elif ev[0] == "w" and cmd_idx != 6 and s6 != ps6:
+                self.fail("hold-without-time", "present value became %r, whose minimum time is 0, but slot 6 "
+                          "went from %r to %r" % (pv, ps6, s6), **tm)
 
 
 # ---------------------------------------------------------------- running histories
@@ -837,7 +950,7 @@ def gen_random(rng, ci, n, timed=False, avoid6=False, wire=False):
 def run_timed(ctx, stream, kind, cname, cfg, events):
     """like lockstep, but for direct targets an advance ("a", t) is replaced by single
     scheduler steps at the implementation's own deadlines followed by ("t", t)"""
-    if kind == "wire":
+    if kind != "direct":
         return lockstep(ctx, stream, kind, cname, cfg, events)
     tgt = Direct(cname, cfg)
     done = []
@@ -930,13 +1043,13 @@ def shard(ctx, spec):
         rng = ctx.sub_rng("c17-rand/%s/%s/%d" % (cname, kind, idx))
         d = rng.randrange(ci["nvals"])
         cfg = {"def": d, "pv": d, "explicit": True} if idx % 2 else {"def": 0, "pv": 0}
-        lockstep(ctx, "rand-" + kind, kind, cname, cfg, gen_random(rng, ci, n, wire=(kind == "wire")))
+        lockstep(ctx, "rand-" + kind, kind, cname, cfg, gen_random(rng, ci, n, wire=(kind != "direct")))
     elif what == "minonoff":
         _, cname, kind, on, off, idx, n = spec
         ci = env()["classes"][cname]
         rng = ctx.sub_rng("c17-mo/%s/%s/%d/%d/%d" % (cname, kind, on, off, idx))
         cfg = {"def": 0, "pv": 0, "on": on, "off": off}
-        run_timed(ctx, "minonoff-" + kind, kind, cname, cfg, gen_random(rng, ci, n, timed=True, avoid6=True, wire=(kind == "wire")))
+        run_timed(ctx, "minonoff-" + kind, kind, cname, cfg, gen_random(rng, ci, n, timed=True, avoid6=True, wire=(kind != "direct")))
     elif what == "corpus":
         run_corpus(ctx)
     else:
@@ -947,6 +1060,13 @@ def replay_case(ctx, case, stream="replay"):
     env()
     events = [tuple(e) for e in case["events"]]
     cfg = case["cfg"]
+    try:
+        make_object(env()["classes"][case["cls"]], cfg)
+    except Exception as ex:
+        ctx.count(stream, ("cannot-construct", case["cls"]))
+        ctx.fail("cannot-construct", case, "%s cannot be instantiated: %s: %s"
+                 % (case["cls"], type(ex).__name__, ex), cls=case["cls"])
+        return
     if any(e[0] == "a" for e in events) or (cfg.get("on") or cfg.get("off")):
         run_timed(ctx, stream, case["kind"], case["cls"], cfg, events)
     else:
@@ -1008,6 +1128,8 @@ def run(ctx):
         grp = (ci["meta"]["datatype"], ci["meta"]["minOnOff"])
         full = not ctx.quick or grp not in seen_groups
         ld, lw = (L, LW) if full else (L - 1, LW - 1)
+        if ctx.quick and full and (len(seen_groups) + ctx.seed) % 2:
+            lw = LW - 1          # ... and the APDU depth alternates between the groups with the seed
         seen_groups.add(grp)
         wire_len[cname] = [ld, lw]
         for f in range(len(cmds)):
@@ -1017,19 +1139,24 @@ def run(ctx):
         for i in range(nrand):
             specs.append(("rand", cname, "direct", i, 100))
             specs.append(("rand", cname, "wire", i, 100))
+        for i in range(1 if ctx.quick else 4):
+            specs.append(("rand", cname, "e2e", i, 50 if ctx.quick else 100))
         if ci["meta"]["minOnOff"]:
             times = range(0, 11)
             pairs = [(a, b) for a in times for b in times]
             if ctx.quick:
                 rng = ctx.sub_rng("c17-pairs/" + cname)
                 pairs = [(0, 0), (10, 3), (3, 10), (0, 5), (5, 0), (1, 1), (10, 10)] + rng.sample(pairs, 14)
-            for (a, b) in pairs:
+            for k, (a, b) in enumerate(pairs):
                 specs.append(("minonoff", cname, "direct", a, b, 0, 60 if ctx.quick else 100))
                 specs.append(("minonoff", cname, "wire", a, b, 0, 40 if ctx.quick else 100))
+                if k < 7 or not ctx.quick:
+                    specs.append(("minonoff", cname, "e2e", a, b, 0, 40 if ctx.quick else 60))
     # interleave heavy and light work
     rng = ctx.sub_rng("c17-shuffle")
     rng.shuffle(specs)
     core.run_shards(ctx, "harness.c17", "shard", specs)
+    ctx.notes[:] = sorted(set(ctx.notes))
     ctx.exhaustive = False
     ctx.extra["exhaustive_sequence_length_direct_wire"] = wire_len
     ctx.extra["classes"] = len(e["names"])
